@@ -8,6 +8,7 @@
 #include "hcommon.h"
 #include "libMultiMarkdown.h"
 #include "token.h"
+#include "token_pairs.h"
 
 #define MAXT 4096
 static token * T[MAXT + 1];
@@ -65,7 +66,7 @@ int main(void) {
 				if (t) for (token * w = t->next; w && w != after; w = w->next) add(w);
 			} else if (!strcmp(o, "M") && nf == 3) {
 				token * a = tk(f[1]), * b = tk(f[2]);
-				if (a && b) { a->mate = b; b->mate = a; }
+				if (a && b) token_pair_mate(a, b);          /* token_pairs.c: a->mate = b; b->mate = a (and both are marked matched) */
 			} else { printf("BADOP %s ", o); }
 		}
 		printf("%ld", nt);
